@@ -91,7 +91,9 @@ Reduced(L) == {FL(Num(0), Num(0)), Fo(Num(0)), Su(Num(1)), JunkSpec, FL(Num(0), 
               \cup (IF L >= 2 THEN {FL(Num(1), Num(L - 2)), FL(Num(L - 2), Num(L - 1)), Su(Num(2)), FL(Num(1), Num(0))} ELSE {})
 Multi(L, k) == UNION {[1..n -> Reduced(L)] : n \in 2..k}
 C03Cases(u) ==
-    UNION {{Req(31, "prod", "GET", "/", <<RangeName(i)>>, "", "", Rng(<<s>>), "") : s \in Singles(RangeLens[i])} : i \in 1..Len(RangeLens)}
+    \* the 70 000-byte file gets every single spec only in the thorough tier (K >= 3); otherwise the reduced set
+    UNION {{Req(31, "prod", "GET", "/", <<RangeName(i)>>, "", "", Rng(<<s>>), "") :
+                s \in (IF RangeLens[i] > 10000 /\ K < 3 THEN Reduced(RangeLens[i]) ELSE Singles(RangeLens[i]))} : i \in 1..Len(RangeLens)}
     \cup UNION {{Req(31, "prod", "GET", "/", <<RangeName(i)>>, "", "", Rng(ss), "") : ss \in Multi(RangeLens[i], K)} : i \in {3, 4, 5, 7}}
     \cup {Req(31, "prod", "GET", "/", <<RangeName(i)>>, "", "", [Rng(ss) EXCEPT !.ws = TRUE], "") :
             i \in {5}, ss \in UNION {[1..n -> Reduced(10)] : n \in 1..2}}
